@@ -621,3 +621,42 @@ Proof.
       apply list_eqb_false. exact H1.
     + vm_compute. reflexivity.
 Qed.
+
+(* ---------- composition with the form handler (C14): pages served after a saved form ---------- *)
+From V Require C14.Model C14.Proofs Gen.C14Vars.
+
+Lemma layouts_agree :
+  C14Vars.O_Email = OFF_EMAIL /\ C14Vars.Z_Email = SZ_EMAIL /\ C14Vars.CFG_SIZE = CFG_SIZE /\
+  C14Vars.O_WIFI_SSID = OFF_SSID /\ C14Vars.O_Server = OFF_SERVER /\ C14Vars.O_MqttTopicPrefix = OFF_PREFIX /\
+  C14Vars.O_WIFI_PWD = OFF_WIFIPWD /\ C14Vars.O_LocationPwd = OFF_PWD /\ C14Vars.O_AuthKey = OFF_AUTHKEY.
+Proof. vm_compute. repeat split. Qed.
+
+(* the configuration stored after any sequence of segments handled by the repaired supla_esp_recv_callback *)
+Definition stored_after (sg : bool) (d : C14.Model.dev) (segs : list (list Z)) : list Z :=
+  C14.Model.dcfg (fst (C14.Proofs.recv_all C14.Model.FIXED sg d segs)).
+
+Lemma stored_email_terminated sg d segs : C14.Proofs.dev_ok d ->
+  terminated (stored_after sg d segs) OFF_EMAIL SZ_EMAIL.
+Proof.
+  intros D. unfold stored_after. pose proof (C14.Proofs.C14_no_fault_thm sg segs d D) as H.
+  destruct (C14.Proofs.recv_all C14.Model.FIXED sg d segs) as [d' rs]. destruct H as [_ D'].
+  destruct (C14.Proofs.d_email d' D') as [k [Hk Hz]]. destruct layouts_agree as [E1 [E2 _]].
+  rewrite E1, E2 in *. exists k. split; assumption.
+Qed.
+
+(* Secrecy after a saved form.  The e-mail/username link is proved (C14_no_fault keeps it terminated in place);
+   for WIFI_SSID, Server and MqttTopicPrefix the in-place termination by the form handler is a hypothesis here
+   (C14's frame lemma covers the Email field only; these three are checked by the C14 and C15 monitors and by the
+   byte comparison of both models with the real code). *)
+Theorem C15_after_saved_form_partial_thm : forall sg sgf d segs,
+  C14.Proofs.dev_ok d ->
+  let c1 := stored_after sgf d segs in
+  terminated c1 OFF_EMAIL SZ_EMAIL /\
+  (terminated c1 OFF_SSID SZ_SSID -> terminated c1 OFF_SERVER SZ_SERVER -> terminated c1 OFF_PREFIX SZ_PREFIX ->
+   forall v c2 nm mc stt dd add, low_equiv c1 c2 ->
+     observable sg v (mkenv c1 nm mc stt dd) add = observable sg v (mkenv c2 nm mc stt dd) add).
+Proof.
+  intros sg sgf d segs D. cbv zeta. pose proof (stored_email_terminated sgf d segs D) as E.
+  split; [exact E|]. intros Hs Hv Hp v c2 nm mc stt dd add L.
+  apply C15_noninterference_thm; [constructor; assumption | exact L].
+Qed.
